@@ -4,6 +4,7 @@ package zz_verif
 
 import (
 	"bytes"
+	"encoding/json"
 
 	ipfslog "berty.tech/go-ipfs-log"
 	"berty.tech/go-ipfs-log/enc"
@@ -12,6 +13,7 @@ import (
 	"berty.tech/go-ipfs-log/iface"
 	"berty.tech/go-ipfs-log/internal/vx"
 	"berty.tech/go-ipfs-log/io/cbor"
+	pbio "berty.tech/go-ipfs-log/io/pb"
 	"github.com/ipfs/go-cid"
 )
 
@@ -271,3 +273,49 @@ var _ = register("H_smoke_cbor", H_smoke_cbor)
 var _ = register("H_C08_roundtrip", H_C08_roundtrip)
 var _ = register("H_C08_linkkey", H_C08_linkkey)
 var _ = register("H_C08_manifest", H_C08_manifest)
+
+// H_C08_legacy: legacy (v0) entries through the protobuf/JSON codec: write, read back, compare every field
+// the v0 format carries; the decoded entry carries the identifier it was requested by.
+func H_C08_legacy() {
+	ids, _ := realIdentities("userA")
+	api := newMemAPI()
+	io, err := pbio.IO(&entry.Entry{}, &entry.LamportClock{})
+	vx.Assert("C08", err == nil && io != nil, "the legacy codec is available")
+	e := &entry.Entry{
+		Payload: vx.Bytes("payload", vx.Param("L", 2)),
+		LogID:   string(vx.BytesN("logid", 1)),
+		Next:    cids(10, vx.Choice("nNext", 3)),
+		V:       0,
+		Key:     vx.BytesN("key", 1),
+		Sig:     vx.BytesN("sig", 1),
+		Clock:   entry.NewLamportClock(vx.BytesN("clock.id", 1), vx.Int("clock.time")),
+	}
+	h, err := entry.ToMultihashWithIO(ctx, e, api, nil, io)
+	vx.Assert("C08", err == nil && h.Defined(), "writing a legacy entry succeeds")
+	if err != nil {
+		return
+	}
+	d, err := entry.FromMultihashWithIO(ctx, api, h, ids[0].Provider, io)
+	vx.Assert("C08", err == nil && d != nil, "reading the legacy entry back succeeds")
+	if err != nil {
+		return
+	}
+	vx.Cover("legacy-read-back")
+	vx.Assert("C08", d.GetHash().Equals(h), "the decoded legacy entry carries the identifier it was requested by")
+	vx.Assert("C08", jsonSame(d.GetPayload(), e.Payload), "legacy payload survives write/read (up to JSON's UTF-8 coercion)")
+	vx.Assert("C08", jsonSame([]byte(d.GetLogID()), []byte(e.LogID)) && sameCids(d.GetNext(), e.Next) && d.GetV() == 0, "legacy log id, predecessors and version survive write/read")
+	vx.Assert("C08", bytes.Equal(d.GetKey(), e.Key) && bytes.Equal(d.GetSig(), e.Sig), "legacy key and signature survive write/read")
+	vx.Assert("C08", d.GetClock() != nil && bytes.Equal(d.GetClock().GetID(), e.Clock.ID) && d.GetClock().GetTime() == e.Clock.Time, "legacy clock survives write/read")
+	h2, err := entry.ToMultihashWithIO(ctx, e, api, nil, io)
+	vx.Assert("C08", err == nil && h2.Equals(h), "the same legacy entry always encodes to the same identifier")
+}
+
+// jsonSame: equality of two byte strings after encoding/json's coercion to valid UTF-8 (the legacy format stores
+// the payload as a JSON string, which cannot carry arbitrary bytes).
+func jsonSame(a, b []byte) bool {
+	ja, err1 := json.Marshal(string(a))
+	jb, err2 := json.Marshal(string(b))
+	return err1 == nil && err2 == nil && bytes.Equal(ja, jb)
+}
+
+var _ = register("H_C08_legacy", H_C08_legacy)
